@@ -12,6 +12,7 @@ use std::ffi::{c_char, c_void, CStr};
 use std::fmt::Display;
 use std::io::{self, Read};
 use std::mem::MaybeUninit;
+use std::panic::{self, AssertUnwindSafe};
 use std::ptr;
 
 use unsafe_libyaml::{
@@ -37,6 +38,7 @@ where
 	reader: R,
 	bouncer: Vec<u8>,
 	error: Option<io::Error>,
+	panic: Option<Box<dyn std::any::Any + Send + 'static>>,
 }
 
 impl<R> Parser<R>
@@ -72,6 +74,7 @@ where
 			reader,
 			bouncer: vec![],
 			error: None,
+			panic: None,
 		}));
 
 		// SAFETY: Again, we assume libyaml is implemented correctly. We know
@@ -105,6 +108,11 @@ where
 
 	pub(super) fn next_event(&mut self) -> Result<Event, io::Error> {
 		Event::parse_next(&mut self.parser).map_err(|err| {
+			// A panic in the reader was held back while libyaml was on the
+			// stack (see read_handler); let it continue now.
+			if let Some(payload) = self.read_state_mut().panic.take() {
+				panic::resume_unwind(payload);
+			}
 			self.read_state_mut()
 				.error
 				.take()
@@ -149,7 +157,21 @@ where
 		// reads through a buffer we control.
 		read_state.bouncer.resize(buffer_size, 0);
 
-		match read_state.reader.read(&mut read_state.bouncer[..]) {
+		// libyaml manages its memory by hand and cannot be unwound through
+		// without leaking, as would also be true of the real library behind
+		// FFI. Hold a panicking reader's panic back until the parser returns.
+		let read_result = panic::catch_unwind(AssertUnwindSafe(|| {
+			read_state.reader.read(&mut read_state.bouncer[..])
+		}));
+		let read_result = match read_result {
+			Ok(read_result) => read_result,
+			Err(payload) => {
+				read_state.panic = Some(payload);
+				return READ_FAILURE;
+			}
+		};
+
+		match read_result {
 			Ok(read_len) if read_len <= buffer_size => {
 				vhit!(READ_HANDLER_OK);
 				// SAFETY: copy_nonoverlapping is VERY dangerous, so let's walk
